@@ -12,35 +12,15 @@ from ._shared import gen, oracle
 
 # ------------------------------------------------------------------------------------------------ registry snapshot
 
-def freeze(v):
-    import re
-    if isinstance(v, re.Pattern):
-        return ("re", v.pattern, v.flags)
-    if isinstance(v, dict):
-        return {k: freeze(x) for k, x in v.items()}
-    if isinstance(v, (list, tuple)):
-        return [freeze(x) for x in v]
-    return v
-
-
 _SNAP = {}
 
 
 def registry_snapshot():
-    from schwifty import registry
-    return {str(k): freeze(v) for k, v in registry._registry.items()}
+    return calls.registry_snapshot()
 
 
 def registry_unchanged():
-    """None if the registries equal their import-time snapshot, else the name of the first differing one."""
-    now = registry_snapshot()
-    base = _SNAP["registry"]
-    if now.keys() != base.keys():
-        return "set of registries: " + ",".join(sorted(set(now) ^ set(base)))
-    for k in base:
-        if now[k] != base[k]:
-            return k
-    return None
+    return calls.registry_diff(_SNAP["registry"])
 
 
 # ------------------------------------------------------------------------------------------------ call pool
@@ -108,9 +88,45 @@ def build_pool(seed):
         pool.append({"op": "from_bank_code", "cc": cc, "code": code})
         pool.append({"op": "candidates", "cc": cc, "code": code})
         pool.append({"op": "from_bank_code", "cc": cc, "code": code[:-1]})
-    whats = ["is_valid", "validate", "snapshot", "bic", "bank", "bank_name", "formatted", "copy", "deepcopy", "pickle", "national",
-             "country_code", "numeric", "in_sepa_zone", "spec", "domestic_bank_codes", "exists", "type", "bank_names"]
-    return pool, creates, whats
+    # ---- groups: calls routed to the same algorithm object / bank key / country, for "burst" histories ------------------
+    groups = []
+    for m in st["impl"]:
+        grp = []
+        accts = []
+        for _ in range(3):
+            accts += directed_accounts(rng, m)
+        for a in accts:
+            grp.append({"op": "de", "method": m, "account": a})
+            if st["by_method"].get(m):
+                grp.append({"op": "iban", "text": de_iban(rng.choice(st["by_method"][m]), a), "validate_bban": True})
+        grp.append({"op": "de", "method": m, "account": "123"})
+        grp.append({"op": "de", "method": m, "account": accts[0], "how": "compute"})
+        groups.append(grp)
+    from .c14 import NATIONAL, national_calls
+    for cc in NATIONAL:
+        grp = national_calls(rng, cc) + national_calls(rng, cc)
+        grp.append({"op": "random", "cc": cc, "seed": rng.randrange(1000), "use_registry": True})
+        groups.append(grp)
+    # bank keys whose registry entries are interesting (several entries, primary not first, several BICs) + ordinary ones
+    from .c12 import place_key, real, ref_candidates
+    R = real()
+    odd = [k for k, es in sorted(R["idx"].items()) if len(es) >= 2 and k[0] in o.table
+           and (not es[0].get("primary") or len(set(ref_candidates(es))) >= 2)]
+    chosen = rng.sample(odd, min(40, len(odd))) + rng.sample(keys, 10)
+    for cc, code in chosen:
+        t = place_key(o, g, cc, code, rng)
+        grp = [{"op": "from_bank_code", "cc": cc, "code": code}, {"op": "candidates", "cc": cc, "code": code}]
+        if t:
+            c = {"kind": "iban", "text": t}
+            for what in ("bank", "bic", "bank_name", "bank_short_name", "snapshot"):
+                grp.append({"op": "obj", "create": c, "what": what})
+            grp.append({"op": "iban", "text": t, "validate_bban": True})
+        for b in ref_candidates(R["idx"][(cc, code)])[:2]:
+            cb = {"kind": "bic", "text": b}
+            for what in ("domestic_bank_codes", "exists", "bank_names"):
+                grp.append({"op": "obj", "create": cb, "what": what})
+        groups.append(grp)
+    return pool, creates, groups
 
 
 WHATS_FOR = {
@@ -124,7 +140,23 @@ WHATS_FOR = {
 
 # ------------------------------------------------------------------------------------------------ the machine
 
-def make_machine(rec: Rec, zyg, pool, creates, check_registry_every_step):
+_SHRINK = {"deadline": None, "budget_s": 25}
+PLOG = []        # every step this process has executed since it started (histories of earlier examples included): a failing
+                 # outcome may depend on any of them, so the recorded history is the whole log, minimised afterwards
+
+
+def _raise_for_shrinking():
+    """Failures are recorded in rec (smallest history wins). Raising lets Hypothesis shrink the history; after a time
+    budget the harness stops raising, which ends the shrink phase (its hard cap would otherwise be five minutes)."""
+    import time
+    now = time.time()
+    if _SHRINK["deadline"] is None:
+        _SHRINK["deadline"] = now + _SHRINK["budget_s"]
+    if now < _SHRINK["deadline"]:
+        raise AssertionError("property violated (recorded)")
+
+
+def make_machine(rec: Rec, zyg, pool, creates, groups, check_registry_every_step):
     from hypothesis import strategies as st
     from hypothesis.stateful import Bundle, RuleBasedStateMachine, invariant, rule
 
@@ -142,6 +174,7 @@ def make_machine(rec: Rec, zyg, pool, creates, check_registry_every_step):
             got = calls.outcome(desc, obj)
             want = zyg.reference(desc)
             self.history.append(desc)
+            PLOG.append(desc)
             rec.evals += 1
             if got[0] == "exc":
                 self.failed_before = True
@@ -149,8 +182,8 @@ def make_machine(rec: Rec, zyg, pool, creates, check_registry_every_step):
                 self.nontrivial = True
             if got != want:
                 what = desc["op"] + (":" + desc.get("what", "") if desc["op"] == "obj" else "")
-                rec.fail(f"history_dependent|{what}", "outcome_equals_fresh_process", {"history": list(self.history)}, want, got)
-                raise AssertionError("history dependent outcome")
+                rec.fail(f"history_dependent|{what}", "outcome_equals_fresh_process", {"history": list(PLOG)}, want, got)
+                _raise_for_shrinking()
 
         @rule(target=objs, c=st.sampled_from(creates))
         def create(self, c):
@@ -158,11 +191,20 @@ def make_machine(rec: Rec, zyg, pool, creates, check_registry_every_step):
             snap = calls.norm_out(calls.apply_obj(obj, "snapshot"))
             self.stored.append((c, obj, snap))
             self.history.append({"op": "create", "create": c})
+            PLOG.append({"op": "create", "create": c})
             return len(self.stored) - 1
 
         @rule(d=st.sampled_from(pool))
         def call(self, d):
             self._compare(d)
+
+        @rule(gi=st.integers(0, len(groups) - 1), idxs=st.lists(st.integers(0, 40), min_size=2, max_size=6))
+        def burst(self, gi, idxs):
+            """several calls routed to the same algorithm object / bank key / country in a row (any order, repetitions)"""
+            grp = groups[gi]
+            for j in idxs:
+                self._compare(grp[j % len(grp)])
+            rec.classes["burst"] += 1
 
         @rule(i=objs, k=st.integers(0, 50), flag=st.booleans())
         def obj_op(self, i, k, flag):
@@ -179,17 +221,17 @@ def make_machine(rec: Rec, zyg, pool, creates, check_registry_every_step):
             for c, obj, snap in self.stored:
                 now = calls.norm_out(calls.apply_obj(obj, "snapshot"))
                 if now != snap:
-                    rec.fail("stored_object_mutated", "objects_immutable", {"history": list(self.history), "object": c}, snap, now)
-                    raise AssertionError("stored object changed")
+                    rec.fail("stored_object_mutated", "objects_immutable", {"history": list(PLOG), "object": c}, snap, now)
+                    _raise_for_shrinking()
             if check_registry_every_step:
                 self._registry()
 
         def _registry(self):
             bad = registry_unchanged()
             if bad:
-                rec.fail(f"registry_modified|{bad}", "registries_unmodified", {"history": list(self.history)}, "unchanged", bad)
+                rec.fail(f"registry_modified|{bad}", "registries_unmodified", {"history": list(PLOG)}, "unchanged", bad)
                 _SNAP["registry"] = registry_snapshot()    # re-baseline so that shrinking sees only new modifications
-                raise AssertionError("registry modified")
+                _raise_for_shrinking()
 
         def teardown(self):
             rec.classes["sequence"] += 1
@@ -203,6 +245,50 @@ def make_machine(rec: Rec, zyg, pool, creates, check_registry_every_step):
     return History
 
 
+def history_fails(zyg, history):
+    """Does the history, run in a fork of the pristine zygote, deviate from fresh-process outcomes / modify state?
+    Returns a short reason or None."""
+    r = zyg.history(history)
+    for d, got in zip(history, r["outcomes"]):
+        if d["op"] == "create":
+            continue
+        want = zyg.reference(d)
+        if got != want:
+            return "outcome"
+    if r["snapshots_changed"]:
+        return "object"
+    if r["registry"]:
+        return "registry:" + r["registry"]
+    return None
+
+
+def minimise(zyg, history, budget_s):
+    """ddmin over the steps of a failing history (each trial runs in a fork of the pristine zygote)."""
+    import time
+    t_end = time.time() + budget_s
+    why = history_fails(zyg, history)
+    if why is None:
+        return history, None          # needs state from earlier histories of this process: keep as recorded
+    n = 2
+    while len(history) >= 2 and time.time() < t_end:
+        chunk = max(1, len(history) // n)
+        reduced = False
+        for i in range(0, len(history), chunk):
+            cand = history[:i] + history[i + chunk:]
+            if cand and history_fails(zyg, cand) is not None:
+                history = cand
+                n = max(n - 1, 2)
+                reduced = True
+                break
+            if time.time() > t_end:
+                break
+        if not reduced:
+            if chunk == 1:
+                break
+            n = min(n * 2, len(history))
+    return history, why
+
+
 def shard(arg):
     i, seed, tier = arg
     import hypothesis
@@ -210,15 +296,19 @@ def shard(arg):
     from hypothesis.stateful import run_state_machine_as_test
     from ..engines.zygote import Zygote
     rec = Rec()
-    pool, creates, _ = build_pool(seed)
+    pool, creates, groups = build_pool(seed)
     _SNAP.setdefault("registry", registry_snapshot())
     zyg = Zygote()
     try:
         quick = tier == "quick"
-        machine = make_machine(rec, zyg, pool, creates, check_registry_every_step=not quick)
+        machine = make_machine(rec, zyg, pool, creates, groups, check_registry_every_step=not quick)
+        from hypothesis import Phase
+        # no Hypothesis shrink phase (hard five-minute cap, no budget control): failing histories are minimised by ddmin below
         s = settings(max_examples=20 if quick else 380, stateful_step_count=40 if quick else 80, deadline=None, database=None,
                      report_multiple_bugs=False, suppress_health_check=list(HealthCheck), print_blob=False,
-                     derandomize=False)
+                     derandomize=False, phases=[Phase.generate])
+        _SHRINK["deadline"] = None
+        _SHRINK["budget_s"] = 25 if quick else 240
         try:
             run_state_machine_as_test(hypothesis.seed(seed * 1000 + i)(machine), settings=s)
         except AssertionError:
@@ -226,6 +316,16 @@ def shard(arg):
         except hypothesis.errors.HypothesisException as e:
             if not rec.fails:
                 raise HarnessError(f"hypothesis: {type(e).__name__}: {e}")
+        except BaseException as e:  # noqa: BLE001 - e.g. exception groups from the shrinker after the budget ended
+            if not rec.fails or isinstance(e, (KeyboardInterrupt, SystemExit)):
+                raise
+        for key, case in list(rec.fails.items()):
+            hist = case["input"].get("history")
+            if hist:
+                small, why = minimise(zyg, hist, 20 if quick else 120)
+                case["input"]["history"] = small
+                case["input"]["reproduces_from_pristine_process"] = why
+                case["_size"] = len(json.dumps(small))
         rec.classes["fresh-process-references"] += zyg.requests
     finally:
         zyg.close()
@@ -234,24 +334,12 @@ def shard(arg):
 
 def replay(rec, case):
     from ..engines.zygote import Zygote
-    _SNAP.setdefault("registry", registry_snapshot())
     zyg = Zygote()
     try:
-        stored = {}
         hist = case["input"]["history"]
-        for n, d in enumerate(hist):
-            if d["op"] == "create":
-                stored[json.dumps(d["create"], sort_keys=True)] = calls.create(d["create"])
-                continue
-            obj = stored.get(json.dumps(d.get("create"), sort_keys=True)) if d["op"] == "obj" else None
-            got = calls.outcome(d, obj)
-            want = zyg.reference(d)
-            if got != want:
-                rec.fail("history_dependent|replay", "outcome_equals_fresh_process", {"history": hist[:n + 1]}, want, got)
-                return
-        bad = registry_unchanged()
-        if bad:
-            rec.fail(f"registry_modified|{bad}", "registries_unmodified", {"history": hist}, "unchanged", bad)
+        why = history_fails(zyg, hist)
+        if why:
+            rec.fail("history_dependent|replay", "outcome_equals_fresh_process", {"history": hist}, "as in a fresh process", why)
     finally:
         zyg.close()
 
@@ -271,4 +359,4 @@ def run(ctx):
     ctx.assumptions = ["fresh process = fork of an interpreter that has imported schwifty and made no call",
                        "call pool is finite per seed (memoised references); histories are unbounded combinations of it"]
     ctx.pmap(shard, [(i, ctx.seed, ctx.tier) for i in range(16)])
-    ctx.require_classes("sequence", "sequence-with-failing-call-followed-by-other-calls", "fresh-process-references")
+    ctx.require_classes("sequence", "sequence-with-failing-call-followed-by-other-calls", "fresh-process-references", "burst")
